@@ -108,6 +108,8 @@ def c03(ctx):
             ctx.violation("shake:identity", "a link was reported with an identity that did not take part in the handshake", x)
         if not x["expected_peer_mismatch_refused"]:
             ctx.violation("shake:expected-peer", "DialSession requiring peer X completed a handshake with a different peer", x)
+        if not x["expected_peer_match_accepted"] and x.get("expected_peer_match_timeout"):
+            raise vlib.Infra("handshake with the expected peer ran out of time three times (30 s each): machine too loaded (%s)" % x.get("expected_peer_match_err"))
         if not x["expected_peer_match_accepted"]:
             ctx.violation("shake:expected-peer-match", "DialSession requiring the peer that really answers was refused", x)
         if x["forged_client_links"]:
@@ -119,7 +121,7 @@ def c03(ctx):
 
 def c05(ctx):
     ctx.assumptions = ["in-memory packet network; the previous owner of the address vanishes silently (its packets are dropped) and the new one binds the same address",
-                       "quic idle timeout 400 ms, dial backoff constant 20 ms, liveness bound 20 s after X finally owns the address",
+                       "quic idle timeout 400 ms, dial backoff constant 20 ms, liveness bound 60 s after X finally owns the address",
                        "only the pconn carrier is run; conn / websocket share Transport.DialPeer"]
     ctx.rule = ("LinkDial.tla model-checked (DialSound, DialLive under weak fairness, 3 owner changes); every owner history over {X, impostor Y, nobody} with "
                 "1..3 (thorough 4) phases replayed against Controller.DialPeerAddr(X, alias of addr) with a retrying link dialer and against Transport.DialPeer(X, addr) (one attempt "
